@@ -121,6 +121,14 @@ def compute(tier, seed):
     if os.environ.get("VERIF_NO_EDITIONS") != "1":
         for k, ed in enumerate(("2015", "2018", "2024")):
             epl = corpus_rt.build_plan("editions", seed)
+            # every twin derives the same enums in another ORDER (groups and the members of a group are permuted): an enum
+            # whose output or acceptance depends on which enums were derived before it in the same compiler process
+            # behaves differently in one of the twins
+            import random as _random
+            _r = _random.Random(f"twin-order-{ed}-{seed}")
+            _r.shuffle(epl.groups)
+            for g in epl.groups:
+                _r.shuffle(g["cases"])
             for g in epl.groups:
                 g["id"] = f"e{ed}" + g["id"]
                 for c in g["cases"]:
